@@ -950,6 +950,26 @@ pub fn run_bounds_case(case: &BoundsCase) -> BoundsRun {
     let mut published = domain.clone();
     probe.apply_to_domain(&mut published);
     let mut state_bytes = Vec::new();
+    // ratio between the largest and the smallest coefficient magnitude of the model
+    let amplification = {
+        let mut lo = 1.0f64;
+        let mut hi = 1.0f64;
+        for c in &m.cons {
+            let mut subs = Vec::new();
+            c.lhs.subexpressions(&mut subs);
+            c.rhs.subexpressions(&mut subs);
+            for e in subs {
+                if let SExp::MulL(d, _) | SExp::MulR(_, d) | SExp::Div(_, d) = e {
+                    let v = if matches!(e, SExp::Div(..)) { 1.0 / d.f().abs() } else { d.f().abs() };
+                    if v > 0.0 && v.is_finite() {
+                        lo = lo.min(v);
+                        hi = hi.max(v);
+                    }
+                }
+            }
+        }
+        hi / lo
+    };
     let mut check_published = |source: &str, types: &IndexMap<String, DomainVariable>, v: &mut dyn FnMut(&str, String), probes: &mut BoundsProbes| {
         for (i, var) in m.vars.iter().enumerate() {
             let Some(dv) = types.get(&var.name) else {
@@ -977,14 +997,15 @@ pub fn run_bounds_case(case: &BoundsCase) -> BoundsRun {
                 continue;
             };
             let (elo, ehi) = er[i];
-            // how much is cut off, relative to the value: a sliver (float rounding amplified
-            // through an extreme coefficient) or a macroscopic piece of the feasible set
+            // how much is cut off: within what the analyzer's own absolute tolerance (1e-9,
+            // also used for integer rounding) or f64 rounding can produce once it is
+            // amplified by the ratio of the model's coefficient magnitudes, or more
             let class_for = |published: f64, exact: Option<Q>| -> &'static str {
                 match exact {
-                    Some(q) if !integer => {
+                    Some(q) if amplification >= 1e6 => {
                         let e = q.to_f64();
-                        if (published - e).abs() <= 1e-3 * e.abs().max(1.0) {
-                            "range-cuts-feasible-point:slight"
+                        if (published - e).abs() <= 4e-9 * amplification {
+                            "range-cuts-feasible-point:tolerance-amplified"
                         } else {
                             "range-cuts-feasible-point"
                         }
@@ -1263,6 +1284,24 @@ fn affine(rng: &mut Rng, n: usize, inexact: bool, max_terms: usize) -> SExp {
             SExp::Add(Box::new(e), Box::new(c))
         } else {
             SExp::Sub(Box::new(e), Box::new(c))
+        };
+    }
+    if rng.chance(1, 12) {
+        // a group multiplied by a coefficient that happens to be zero (data-driven rows):
+        // 0 * (x + 5) contributes nothing, not even its constant
+        let inner = SExp::Add(
+            Box::new(SExp::Var(rng.usize(0, n - 1))),
+            Box::new(SExp::Num(Dec::int(rng.range(-6, 9)))),
+        );
+        let zero = if rng.chance(1, 2) {
+            SExp::MulL(Dec::int(0), Box::new(inner))
+        } else {
+            SExp::MulR(Box::new(inner), Dec::int(0))
+        };
+        e = if rng.chance(1, 2) {
+            SExp::Add(Box::new(e), Box::new(zero))
+        } else {
+            SExp::Sub(Box::new(e), Box::new(zero))
         };
     }
     e
